@@ -666,6 +666,25 @@ func init() {
 			}, rng, map[bool]int{false: nScripts, true: nScripts / 4}[fresh || alt])
 			p.srv.Close()
 		}
+		// ---- a local address that is not an IP address: no datagram can be exchanged at all, so no offset may be reported
+		if r.Only() == "" {
+			for _, la := range []*net.UDPAddr{{}, {IP: net.IP{1, 2, 3}}} {
+				c := &client.IPClient{Log: log}
+				ctx, cancel := context.WithTimeout(context.Background(), 200*time.Millisecond)
+				var err error
+				var ts time.Time
+				pnc := c02Recover(func() {
+					ts, _, err = client.MeasureClockOffsetIP(ctx, log, c, la, &net.UDPAddr{IP: srvIP.AsSlice(), Port: 1})
+				})
+				cancel()
+				r.Eval(1)
+				if pnc == nil && err == nil {
+					r.Violation("ip-client|wrong-value:success reported although no datagram was accepted|local address without an IP address", "nolocal", map[string]any{"local": fmt.Sprint(la), "timestamp": ts.String()})
+				} else {
+					r.Class("ip-client:error-on:local address without an IP address")
+				}
+			}
+		}
 		// ---- IP with NTS
 		{
 			p := newPeer(0)
